@@ -33,13 +33,19 @@ def _const_like(e):
 class _Normalise(ast.NodeTransformer):
     """Behaviour-preserving normal form every rule sees (so that the rules need to know one spelling only):
       * `CONST op x`  ->  `x op' CONST` for a single comparison whose left side is constant-like and right side is not;
+        two non-constant operands are ordered by their text (`b > a` -> `a < b`);
+      * `x = x <op> e`  ->  `x <op>= e`;
       * `t = E; return t` (adjacent, t a plain local)  ->  `return E`.
     Positions of the original nodes are kept for reporting."""
 
     def visit_Compare(self, n):
         self.generic_visit(n)
-        if len(n.ops) == 1 and type(n.ops[0]) in _FLIP_OP and _const_like(n.left) and not _const_like(n.comparators[0]):
-            return ast.copy_location(ast.Compare(left=n.comparators[0], ops=[_FLIP_OP[type(n.ops[0])]()], comparators=[n.left]), n)
+        if len(n.ops) == 1 and type(n.ops[0]) in _FLIP_OP:
+            l, r = n.left, n.comparators[0]
+            cl, cr = _const_like(l), _const_like(r)
+            # constants go right; two non-constant operands are put in the order of their text
+            if (cl and not cr) or (not cl and not cr and ast.unparse(l) > ast.unparse(r)):
+                return ast.copy_location(ast.Compare(left=r, ops=[_FLIP_OP[type(n.ops[0])]()], comparators=[l]), n)
         return n
 
     def visit_Assign(self, n):
